@@ -24,7 +24,9 @@ fn fresh_dir(base: &Path, name: &str) -> PathBuf {
 
 fn main() {
     // panics inside the crate are caught per history; keep the default hook quiet
-    std::panic::set_hook(Box::new(|_| {}));
+    if std::env::var_os("LSMV_PANIC").is_none() {
+        std::panic::set_hook(Box::new(|_| {}));
+    }
     let args: Vec<String> = std::env::args().collect();
     match args.get(1).map(String::as_str) {
         Some("gen") => {
@@ -177,7 +179,24 @@ fn main() {
             std::fs::create_dir_all(&outdir).expect("outdir");
             for seed in seed0..seed0 + count {
                 let dir = fresh_dir(&scratch, &format!("conc-{seed}"));
-                let trace = conc::run(seed, &dir, blob, n_writes, writer_published, preempt_writer);
+                // a panic that escapes the worker threads (e.g. a poisoned lock after a thread of
+                // the crate panicked) is a result of this run, not a crash of the harness
+                let trace = match std::panic::catch_unwind(std::panic::AssertUnwindSafe(|| {
+                    conc::run(seed, &dir, blob, n_writes, writer_published, preempt_writer)
+                })) {
+                    Ok(t) => t,
+                    Err(p) => {
+                        let msg = p
+                            .downcast_ref::<String>()
+                            .cloned()
+                            .or_else(|| p.downcast_ref::<&str>().map(|s| (*s).to_string()))
+                            .unwrap_or_default();
+                        format!(
+                            "C -\nH concurrent-run seed={seed} writes=0\nPANIC 0 concurrent-run:{}\nEND\n",
+                            msg.replace(['\n', ' '], "_")
+                        )
+                    }
+                };
                 std::fs::write(outdir.join(format!("{seed}.trace")), trace).expect("write");
                 std::fs::write(outdir.join(format!("{seed}.hist")), format!("# concurrent run: lsmv conc {seed} 1 <outdir> <scratch> {n_writes} {}{}\n", args[7], if blob { " blob" } else { "" })).expect("write");
                 let _ = std::fs::remove_dir_all(&dir);
